@@ -635,7 +635,7 @@ func c15RunPlan(c *core.Case, o *core.Outcome) {
 			}
 			continue
 		}
-		if !seen[i] {
+		if !seen[i] && !(cutShort && i == ns-1) {
 			o.Violate(key, "rate stage %d was never evaluated (%s)", i, desc)
 			return
 		}
